@@ -12,7 +12,8 @@ Exploration (bounded, exhaustive, nothing sampled):
 * kind ``arith``: every operator overload / convenience method derived from lincomb, multiply and
   divide, on the same register files, all operand pairs (aliased ones included), scalars of S,
   array-like right operands, integer and fractional powers.
-* kind ``bcast``: power-space broadcasting ``p o b`` / ``b o p`` / ``p o= b``.
+* kind ``bcast``: power-space broadcasting ``p o b`` / ``b o p`` / ``p o= b``, also with b being
+  part k of p (every k) or a different element wrapping the memory of part k.
 * mode ``Z`` of kind ``arith``: every form of element-wise division with exact zeros (both
   signs) among the divisor entries, reference = NumPy's IEEE quotient on copies (+-inf, nan).
 * kind ``overlap``: x1 and x2 are DISTINCT elements wrapping overlapping shifted views
@@ -1062,6 +1063,13 @@ def _iter_arrays(obj):
 # ------------------------------------------------------------------------------------------
 # kind: bcast  (power-space broadcasting)
 
+def _rewrap(space, elem):
+    """A NEW element of ``space`` wrapping the very arrays of ``elem`` (shares all memory)."""
+    if is_ps(space):
+        return space.element([_rewrap(s, p) for s, p in zip(space.spaces, elem.parts)])
+    return space.element(elem.data)
+
+
 def run_bcast(cfg):
     cx = Ctx(cfg)
     sp, E, regs, info = cx.space, cx.E, cx.regs, cx.info
@@ -1077,6 +1085,7 @@ def run_bcast(cfg):
     bk = 'base=%s' % ('pspace' if is_ps(base) else 'tensor')
     F_PB, F_BP, F_IN = ('broadcast(p.b,%s)' % bk, 'broadcast(b.p,%s)' % bk,
                         'broadcast(p.=b,%s)' % bk)
+    F_INP = 'broadcast(p.=part_of_p,%s)' % bk
     OPS = [('+', operator.add, operator.iadd, R.add, True),
            ('-', operator.sub, operator.isub, R.sub, kind != 'u'),
            ('*', operator.mul, operator.imul, R.mul, True),
@@ -1122,21 +1131,56 @@ def run_bcast(cfg):
                     def inplace():
                         ret = fi(E[i], B[m].elem)
                         if ret is not E[i]:
-                            hold.append(None if not (hasattr(ret, 'space') and ret.space == sp)
-                                        else flat_of(ret))
+                            hold.append(hasattr(ret, 'space') and ret.space == sp and
+                                        R.same_ieee(flat_of(ret), regs[i].get()))
                         return ret
                     cx.check(F_IN, lab, inplace, exp, mut=i, ret_is_out=False,
                              operands=ops, sig='p%s=b' % sym)
-                    if hold and (hold[0] is None or not np.array_equal(hold[0], exp)):
+                    if hold and not hold[0]:
                         cx.viol(F_IN, 'inplace_return_value_differs',
-                                '%s returned an element that does not hold the result' % lab)
+                                '%s returned an element that does not hold the contents of '
+                                'the updated left operand' % lab)
                     bchk(lab)
-                # operand that is one of the element's own parts (read only: out of place)
-                own = E[i].parts[nparts - 1]
-                Yb = np.concatenate([C[i][-nb:]] * nparts)
-                lab = 'r%d %s r%d[%d]' % (i, sym, i, nparts - 1)
-                cx.check(F_PB, lab, lambda: f(E[i], own), ref(C[i], Yb, dt),
-                         operands=(('p', C[i]), ('b', Yb)), sig='p%sownpart' % sym)
+            # ---- the operand is a PART of the (in-place) target, for EVERY part index k, or a
+            # different element that merely wraps the memory of part k.  Reference: NumPy on
+            # copies (all parts op copy of part k).  Aliasing pattern "broadcast operand is a
+            # component of the target" of the clause "every aliasing pattern".
+            for i in range(3):
+                for k in range(nparts):
+                    own = E[i].parts[k]
+                    alias = _rewrap(base, own)
+                    if alias is own or not any(
+                            np.shares_memory(a, b)
+                            for a, b in zip(elem_arrays(alias), elem_arrays(own))):
+                        raise AssertionError('harness: alias of a part not realised')
+                    Yb = np.concatenate([C[i][k * nb:(k + 1) * nb]] * nparts)
+                    ops = (('p', C[i]), ('p[k]', Yb))
+                    for who, b_el in (('r%d[%d]' % (i, k), own),
+                                      ('<element sharing memory with r%d[%d]>' % (i, k), alias)):
+                        tag = 'part' if b_el is own else 'alias'
+                        pos = 'first' if k == 0 else ('last' if k == nparts - 1 else 'middle')
+                        cx.check(F_PB, 'r%d %s %s' % (i, sym, who), lambda: f(E[i], b_el),
+                                 ref(C[i], Yb, dt), operands=ops,
+                                 sig='p%s%s:%s' % (sym, tag, pos))
+                        cx.check(F_BP, '%s %s r%d' % (who, sym, i), lambda: f(b_el, E[i]),
+                                 ref(Yb, C[i], dt), operands=ops,
+                                 sig='%s%sp:%s' % (tag, sym, pos))
+                        lab = 'r%d %s= %s' % (i, sym, who)
+                        exp = ref(C[i], Yb, dt)
+                        hold = []
+
+                        def inplace2():
+                            ret = fi(E[i], b_el)
+                            if ret is not E[i]:
+                                hold.append(hasattr(ret, 'space') and ret.space == sp and
+                                            R.same_ieee(flat_of(ret), regs[i].get()))
+                            return ret
+                        cx.check(F_INP, lab, inplace2, exp, mut=i, ret_is_out=False,
+                                 operands=ops, sig='p%s=%s:%s' % (sym, tag, pos))
+                        if hold and not hold[0]:
+                            cx.viol(F_INP, 'inplace_return_value_differs',
+                                    '%s returned an element that does not hold the contents of '
+                                    'the updated left operand' % lab)
     return cx.result()
 
 
@@ -1457,8 +1501,13 @@ def configs(tier):
                 cfgs.append({'kind': 'arith', 'space': spec, 'lay': lay, 'mode': mode,
                              'tier': tier})
 
-    # ---- broadcasting over power spaces
-    for spec in psp:
+    # ---- broadcasting over power spaces (extra ones with >= 3 parts: first / middle / last)
+    bsp = psp + [['W', RN(3), 3], ['W', ['U', [3], 'float64'], 3], ['W', RN(120), 3],
+                 ['W', ['U', [2, 3], 'complex128'], 3]]
+    if thorough:
+        bsp += [['W', RN(3, 'int64'), 4], ['W', RN(101, 'float32'), 3],
+                ['W', ['U', [50000], 'float64'], 3]]
+    for spec in bsp:
         if not _spec_is_power(spec):
             continue
         for bl in ('C', 'S0'):
@@ -1621,9 +1670,9 @@ def meta(tier):
         'assumptions': [
             'aliasing = identity of element objects (property anchor); an OUTPUT that overlaps '
             'an operand without being identical to it, a product element used as OUTPUT whose '
-            'parts are one object, and an in-place broadcast operand that is a part of the '
-            'target are not enumerated; distinct operands that only are READ may overlap '
-            '(kind overlap)',
+            'parts are one object are not enumerated; distinct operands that only are READ may '
+            'overlap (kind overlap); a broadcast operand that is (or shares the memory of) part '
+            'k of the in-place target IS enumerated for every k (kind bcast)',
             'no NaN/Inf in operands; NaN/huge only in an out register that is not an operand, '
             'and in the target of set_zero(); divisors contain exact zeros only in mode Z, where '
             'the expected quotient is NumPy\'s IEEE result (+-inf, nan) on copies, compared with '
